@@ -8,13 +8,21 @@ LOOKUPS = ['GC_Mem_Ptr', 'GC_Rem_Ptr', 'GC_Mark_Item']
 INSERT = 'GC_Set_Ptr'
 
 
+def majority(forms):
+    """{name: hashable form} -> (the most common form, name of one function that has it)"""
+    from collections import Counter
+    c = Counter(forms.values())
+    best = c.most_common(1)[0][0]
+    return best, [k for k, v in forms.items() if v == best][0]
+
+
 def check_probe_agreement(P, ctx, rule='C17.probe-agreement'):
     fr = {}
     for f in LOOKUPS + [INSERT]:
         fr[f] = probe.lookup_fragments(P, f)
         ctx.fn(fr[f].fn)
-    ref = fr[LOOKUPS[0]]
-    refname = LOOKUPS[0]
+    best, refname = majority({f: (frozenset(probe.stop_set(fr[f])), ir.fmt(fr[f].start['i'])) for f in LOOKUPS})
+    ref = fr[refname]
     for f in LOOKUPS + [INSERT]:
         F = fr[f]
         s = site(F.fn)
